@@ -73,6 +73,8 @@ def rules_cases(draw):
     sections.append({'name': secnames[i], 'kind': 'pattern', 'pattern': p, 'dests': dests, 'styles': styles, 'continue': cont})
   names = draw(st.lists(rx.names_for(pats), min_size=1, max_size=10))
   names = [draw(st.sampled_from([nm, nm, nm.upper(), nm.title()])) for nm in names]
+  # tagged series are matched by the full name as received, tags included
+  names = [nm + draw(st.sampled_from(['', '', '', ';env=prod', ';dc=web;cpu=1', ';b=2;a=count'])) for nm in names]
   configured = draw(st.lists(st.sampled_from(range(len(DESTS))), unique=True, max_size=len(DESTS)))
   removed = draw(st.lists(st.sampled_from(configured), unique=True, max_size=2)) if configured else []
   return {'kind': 'rules', 'sections': sections, 'names': [n for n in names if n], 'configured': configured, 'removed': removed}
